@@ -31,6 +31,9 @@ CHECKS = {
  "C09": ("Relational runtime check on design_matrices(f, d, na_action): the set of used columns is computed from the formula text by the reference grammar; 'drop' must equal a shadow run on the complete rows (used columns only), 'error' must raise ValueError iff a row is incomplete in the used columns and otherwise equal 'drop', 'pass' must keep every row with NaN in exactly the columns of the terms that mention the missing numeric variable and the values of a filled-in shadow design elsewhere, any other policy must be refused. Random designs x 7 missingness patterns x policies.",
          "'pass' is judged only inside the statement's scope (plain variables / pointwise calls, missing numeric values); other 'pass' cases are executed and counted. Reference executions use the same library on other frames (relational oracle).",
          "relational runtime monitor: shadow executions on row-filtered / filled frames, used-variable set from the reference grammar"),
+ "C10": ("Runtime post-conditions on evaluate_new_data for frames in which the driver plants an unseen level (predictor, effect variable, grouping variable, component of an interaction factor; str/object/Categorical/int-code columns) on a random row set, under all three modes with the mode changed between evaluations of the same design: error raises; warning/silent zero exactly the columns involving the variable on exactly those rows, leave every other entry equal to a shadow evaluation with a seen level, warn / stay silent; group terms get exactly one trailing block per term of an affected factor with the effect on exactly those rows, contiguous slices and exact factors_with_new_levels. An icontract invariant on Config plus an exhaustive driver over keys x values x assignment styles decides the configuration clause.",
+         "Unseen levels are planted in one variable at a time; what the group part does in 'error' mode is not stated and not judged; ordered categoricals are not planted.",
+         "runtime post-condition monitor with shadow execution (seen-level substitution) + icontract class invariant on Config with exhaustive configuration driver"),
 }
 NOT_APPLICABLE = {}
 PENDING = [f"C{i:02d}" for i in range(1, 18) if f"C{i:02d}" not in CHECKS]
